@@ -641,6 +641,32 @@ class CallMixin:
             return K(round(*[a.v for a in args]))
         return Sym(f"round({','.join(self.ident(a) for a in args)})", frozenset({"float", "int"}), "derived")
 
+    def bi_next(self, args, kwargs):
+        it = args[0]
+        parts = self.iter_parts(it)
+        default = args[1] if len(args) > 1 else None
+        if not parts:
+            if default is None:
+                raise PathEnd("raise", ("StopIteration", K("")))
+            return default
+        p = parts[0]
+        if isinstance(p, Elems) and p.items:
+            return p.items[0]
+        # first element of a symbolic / filtered sequence: exists or not
+        nonempty = self.parts_nonempty(tuple(parts))
+        if self.decide(nonempty):
+            if isinstance(p, PreSeq):
+                return self.make_sym(f"{p.path}[0]", p.spec)
+            if isinstance(p, MapPart):
+                alts = [a for a in p.alts if a[1]]
+                if len(alts) == 1 and len(alts[0][1]) == 1 and len(parts) == 1:
+                    # [f(x) for x in seq if g(x)]: the image of the first element that passes the filter
+                    return Sym(self.fresh_name(f"first(map{p.lid})"), None)
+            return Sym(self.fresh_name("next"), None)
+        if default is None:
+            raise PathEnd("raise", ("StopIteration", K("")))
+        return default
+
     def bi_abs(self, args, kwargs):
         (v,) = args
         if isinstance(v, K):
@@ -1127,6 +1153,21 @@ class CallMixin:
             return K(None)
         if name == "copy":
             return self.copy_copy(o)
+        if name == "union" and h.kind == "set":
+            parts = list(self.iter_parts(o, False))
+            for a in args:
+                parts += list(self.iter_parts(a, False))
+            return self.new_list_parts(self.norm_parts(tuple(parts)), kind="set")
+        if name == "difference" and h.kind == "set" and len(args) == 1:
+            lid = self.new_lid()
+            return self.alloc("set", True, self.fresh_name("setdiff"),
+                              parts=(PreSeq(f"setdiff{lid}({self.ident(o)},{self.ident(args[0])})", "any"),))
+        if name in ("intersection", "symmetric_difference", "issubset", "issuperset", "isdisjoint") and h.kind == "set":
+            lid = self.new_lid()
+            nm = f"set{name}{lid}({self.ident(o)},{','.join(self.ident(a) for a in args)})"
+            if name.startswith("is"):
+                return B(self.smt.atom(nm))
+            return self.alloc("set", True, self.fresh_name("set" + name), parts=(PreSeq(nm, "any"),))
         if name == "index" or name == "count":
             return I(self.smt.int(self.fresh_name(f"{h.path}.{name}"), nonneg=True))
         raise Unsupported(f"{h.kind}.{name}")
